@@ -70,6 +70,11 @@ def retargetWith (off : Nat) (src tgt : List Nat) (d : List Nat) : Option (List 
 def retarget := retargetWith 1
 def retargetOld := retargetWith 0
 
+/-- the whole `as_encoded_array(encoded, target)` step: equal encodings return the data as is
+(also when it is empty); otherwise the prefix rule decides -/
+def retargetFull (src tgt : List Nat) (d : List Nat) : Option (List Nat) :=
+  if src == tgt then some d else retarget src tgt d
+
 /-- `change_encoding`: decode with the source alphabet, encode with the target -/
 def changeEncoding (src tgt : List Nat) (d : List Nat) : Option (List Nat) :=
   match specDecode src d with
